@@ -3,8 +3,8 @@
 // `typs.iter().map(encode_ty).collect::<Vec<_>>().join("_")`: the components' spellings joined with `_` — an uninterpreted function of the list
 pub uninterp spec fn joined(ts: Seq<Ty>) -> Seq<char>;
 #[verifier::external_body] pub fn join_encoded(typs: &Vec<Ty>) -> (r: String) ensures r@ == joined(typs@) { unimplemented!() }
-// the spelling of a tuple type: `Tuple`, the NUMBER of components, `_`, the components
-pub open spec fn tuple_code(n: int, rest: Seq<char>) -> Seq<char> { "Tuple"@ + dec(n) + "_"@ + rest }
+// the spelling of a tuple type: a fixed text (tuple_pre, DERIVED), the NUMBER of components, `_`, the components
+pub open spec fn tuple_code(n: int, rest: Seq<char>) -> Seq<char> { tuple_pre() + dec(n) + "_"@ + rest }
 // two texts `<digits>_<rest>`: equal texts have equal digit parts
 pub proof fn first_segment(d1: Seq<char>, x: Seq<char>, d2: Seq<char>, y: Seq<char>)
     requires d1 + seq!['_'] + x == d2 + seq!['_'] + y, !d1.contains('_'), !d2.contains('_'),
@@ -32,7 +32,7 @@ pub proof fn tuple_codes_tell_arities_apart(n1: int, r1: Seq<char>, n2: int, r2:
 {
     reveal_strlit("_");
     assert("_"@ =~= seq!['_']);
-    let p = "Tuple"@;
+    let p = tuple_pre();
     let a = dec(n1) + seq!['_'] + r1;
     let b = dec(n2) + seq!['_'] + r2;
     assert(tuple_code(n1, r1) =~= p + a);
